@@ -53,9 +53,10 @@ def repBytes (p u : Bytes) (n : Nat) (s : Bytes) : Bytes :=
 
 /-- the harness tags inputs in which an ext header directly precedes a map header (`.extmap`): the library
 reads those as maps where a map is expected (vmihailenco `DecodeMapLen`), which is outside the modelled wire
-domain, so no accept/refuse verdict is given for them -/
+domain, so no accept/refuse verdict is given for them; likewise for map-encoded structs that name a field
+twice (`.dupfield`: the library decodes the second value on top of the first) -/
 def tagExtMap : Sx → Bool
-  | .atom t => (t.splitOn ".extmap").length > 1
+  | .atom t => (t.splitOn ".extmap").length > 1 || (t.splitOn ".dupfield").length > 1
   | _ => false
 
 def evalOpHostile : Sx → Option String
